@@ -149,7 +149,10 @@ func c10Enc(cls string, v XVal) c10Case {
 
 var c10Strs = []string{"", "a", "s1", "sub", "hello world", "q\"uote", "back\\slash", "line\nfeed", "tab\t",
 	"é", "日本語", "😀", " x", "<a>&", "\x00", "pow: x", "error: ", "duplicate: dup", "pow:",
-	"invalid:  two", "e", "#e", "EVENT", "0123abcd", "/slash/", "blocked: b", "rate-limited: slow", "x\u007f"}
+	"invalid:  two", "e", "#e", "EVENT", "0123abcd", "/slash/", "blocked: b", "rate-limited: slow", "x\u007f",
+	// text that merely looks like an escape: a literal backslash followed by u003c, u0026, u2028, n (an encoder that
+	// post-processes its output textually mistakes these for escapes it wrote itself)
+	"\\u003c", "a\\u003eb", "\\u0026", "\\u2028", "\\n", "\\\\u003c", "\\\""}
 
 var c10Ints = []int64{0, 1, 5, -1, 3, 65535, 65536, 30000, 1700000000, -5, 7}
 var c10BigLits = []JV{
